@@ -429,3 +429,10 @@ func RunReplay(table map[string]func()) {
 // either a fresh object or the object put back last (both are explored).
 // Natively sync.Pool does what it does.
 func PoolReuse(on bool) {}
+
+// ParkSleepers(1): under the engine a goroutine (other than the harness's own)
+// that calls time.Sleep blocks until WakeSleepers, so the harness can act while
+// the code is inside a back-off. Natively sleeps are real and these are no-ops.
+func ParkSleepers(on int) {}
+func Sleepers() int       { return 0 }
+func WakeSleepers()       {}
